@@ -44,7 +44,7 @@ func H_C18_Seq() {
 	for i := 0; i < k; i++ {
 		last = symState("st")
 		h.HandleShipHandshakeStateUpdate(skiA, last)
-		if zzvrt.RunSpawned("HandleShipHandshakeStateUpdate$1") > 0 {
+		if zzvrt.RunAll() > 0 {
 			notified = true
 		}
 	}
@@ -77,7 +77,7 @@ func H_C18_Pending() {
 		last = symState("st")
 		h.HandleShipHandshakeStateUpdate(skiA, last)
 	}
-	zzvrt.RunSpawned("HandleShipHandshakeStateUpdate$1")
+	zzvrt.RunAll()
 	want := h.mapShipMessageExchangeState(last.State, skiA)
 	if last.Error != nil {
 		want = api.ConnectionStateError
@@ -112,7 +112,7 @@ func H_C18_Api() {
 	case 2:
 		h.CancelPairingWithSKI(skiA)
 	}
-	zzvrt.RunSpawned("HandleShipHandshakeStateUpdate$1")
+	zzvrt.RunAll()
 	want := h.PairingDetailForSki(skiA).State()
 	seen := int(initial)
 	if got, ok := lastDetail(e); ok {
